@@ -20,15 +20,16 @@ def r1_r2_r3(ctx):
     v, w, seqid = Sym("v", "str", True), Sym("w", "str", True), Sym("seqid", "str", True)
 
     def run(spec, attrs, ft="gene", counters=None):
-        so = Opaque("self", "obj")
-        so.attrs["id_spec"] = spec
+        from . import scen
         cnt = collections.defaultdict(int)
         cnt.update(counters or {})
-        so.attrs["_autoincrements"] = cnt
+        # the importer is built by its own constructor (whatever helper objects it sets up exist)
+        it_, so, _conn = scen.make_creator(ctx, "_GFFDBCreator", id_spec=spec, _autoincrements=cnt)
+        ctx.require(isinstance(so, Opaque), "_GFFDBCreator(...) raises on id_spec %r" % (spec,))
         F = Opaque("F", "Feature")
         F.attrs.update({"attributes": attrs, "featuretype": ft, "seqid": seqid, "strand": Sym("strand", "str", True)})
         try:
-            traces = Interp(ctx).run(f, {feat[0]: F}, self_obj=so)
+            traces = it_.run(f, {feat[0]: F}, self_obj=so)
         except Unsupported as e:
             ctx.require(False, "_id_handler outside the analysable subset: %s" % e)
         out = []
@@ -91,12 +92,12 @@ def r4(ctx):
     f = require_func(ctx, "create._DBCreator._increment_featuretype_autoid")
     key = [p for p in f.params if p != "self"][0]
     for start, base, want, state in (({"gene": 4}, "gene", "gene_5", 5), ({"gene": 4}, "exon", "exon_1", 1), ({}, "chr:1", "chr:1_1", 1)):
-        so = Opaque("self", "obj")
+        from . import scen
         cnt = collections.defaultdict(int)
         cnt.update(start)
-        so.attrs["_autoincrements"] = cnt
+        it_, so, _conn = scen.make_creator(ctx, "_GFFDBCreator", _autoincrements=cnt)
         try:
-            traces = Interp(ctx).run(f, {key: base}, self_obj=so)
+            traces = it_.run(f, {key: base}, self_obj=so)
         except Unsupported as e:
             ctx.require(False, "_increment_featuretype_autoid outside the analysable subset: %s" % e)
         res = sorted({(t.result[0], t.result[1].render() if isinstance(t.result[1], AStr) else t.result[1]) for t in traces}, key=repr)
@@ -107,51 +108,17 @@ def r4(ctx):
         final = stores[-1][3] if stores else None
         ctx.ob("R4", final == state, "the counter of the base is advanced by one (the next key differs)", func=f,
                sig="counter %s, base %r: counter stored %s" % (start, base, final))
-    # sibling: FeatureDB.merge's own id generator
-    m = require_func(ctx, "interface.FeatureDB.merge")
-    pool = closure(ctx, m)
-    fl = Flow(ctx, pool, rows=False)
-    COUNTERS = ("attr", ("self",), "_autoincrements")
-    gens = []
-    for g in pool:
-        for n in ast.walk(g.node):
-            if isinstance(n, ast.Assign) and any(isinstance(t, ast.Attribute) and t.attr == "id" for t in n.targets):
-                for t in fl.terms(n.value, g):
-                    parts = text_parts(t) if t[0] != "const" else None
-                    if parts and len(parts) >= 2:
-                        gens.append((g, n, t, parts))
-    ctx.floor("R4", len(gens), 1, "id generators in FeatureDB.merge")
-    for g, n, t, parts in gens:
-        ok = len(parts) == 3 and parts[1] == "_" and not isinstance(parts[0], str) and parts[2] == ("index", COUNTERS, parts[0])
-        ctx.ob("R4", ok, "merge() numbers its outputs with the same counters and the same <base>_<n> shape", node=n, func=g,
-               sig="merge id format <base>_<counters[base]>" if ok else "merge id format %s" % [p if isinstance(p, str) else show(p) for p in parts])
-        if not ok:
-            continue
-        # the counter is incremented before it is used: an increment of counters[base] dominates the use
-        h = None
-        for cand in pool:
-            if any(n is x for x in ast.walk(cand.node)):
-                h = cand
-        # the formatting expression may live in a helper: look for the increment where the counter is read
-        found = False
-        for cand in pool:
-            ccfg = cfg_of(cand)
-            incs = [a for a in ast.walk(cand.node) if isinstance(a, ast.AugAssign) and isinstance(a.op, ast.Add) and isinstance(a.target, ast.Subscript)
-                    and fl.terms(a.target.value, cand) == {COUNTERS} and isinstance(a.value, ast.Constant) and a.value.value == 1]
-            incs += [a for a in ast.walk(cand.node) if isinstance(a, ast.Assign) and isinstance(a.targets[0], ast.Subscript)
-                     and fl.terms(a.targets[0].value, cand) == {COUNTERS} and isinstance(a.value, ast.BinOp) and isinstance(a.value.op, ast.Add)
-                     and isinstance(a.value.right, ast.Constant) and a.value.right.value == 1]
-            reads = [x for x in ast.walk(cand.node) if isinstance(x, ast.Subscript) and isinstance(x.ctx, ast.Load) and fl.terms(x.value, cand) == {COUNTERS}
-                     and not any(x is a.value.left or x is getattr(a, "target", None) for a in incs if isinstance(a, ast.Assign))]
-            for x in reads:
-                xn = ccfg.node_for(x)
-                if xn is None:
-                    continue
-                if any(ccfg.node_for(i) is not None and ccfg.dominates(ccfg.node_for(i).id, xn.id) and ccfg.node_for(i).id != xn.id
-                       and fl.terms(i.target.slice if isinstance(i, ast.AugAssign) else i.targets[0].slice, cand) == fl.terms(x.slice, cand) for i in incs):
-                    found = True
-        ctx.ob("R4", found, "merge() increments the counter before using it", node=n, func=g,
-               sig="merge counter incremented before use" if found else "merge counter used without a dominating increment")
+    # sibling: FeatureDB.merge's own id generator -- decided on the evaluated merge scenarios of C16 (fresh distinct ids
+    # '<type>_<n>', counter advanced once per run, numbering continued from the database's counters)
+    from . import c16
+    n0 = len(ctx.obs)
+    c16.merge_semantics(ctx)
+    kept = [o for o in ctx.obs[n0:] if o.rule.endswith("R5")]
+    del ctx.obs[n0:]
+    for o in kept:
+        o.rule = "C04.R4"
+        ctx.obs.append(o)
+    ctx.floor("R4", len(kept), 3, "id obligations on the evaluated merge scenarios")
 
 
 def r5(ctx):
@@ -205,6 +172,44 @@ def r6(ctx):
             ctx.ob("R6", ok, "an absent key (%s form) raises FeatureNotFoundError" % form, func=f,
                    sig="db[%r as %s] raises FeatureNotFoundError" % (key, form) if ok else "db[%r as %s] -> %s %s" % (key, form, t.result[0], getattr(t.result[1], "name", t.result[1])))
     ctx.floor("R6", n, 10, "look-ups evaluated")
+    # ---- look-ups follow the table through a history: replace by update, then delete
+    newer = scen.feature("N", "exon", 777, 888, {"ID": ["e2"], "Parent": ["t1"], "note": ["newer"]}, strand="-")
+    t = scen.call_method(ctx, it, me, "interface.FeatureDB.update", data=[newer], make_backup=False, merge_strategy="replace")
+    if scen.returned(ctx, t, "update(merge_strategy='replace')", func=f, rule="R6"):
+        for form in ("string", "Feature"):
+            arg = "e2" if form == "string" else scen.feature("probe", "x", 1, 2, {}, id="e2")
+            t = scen.call_method(ctx, it, me, "interface.FeatureDB.__getitem__", key=arg)
+            got = t.result[1] if t.result[0] == "return" else None
+            ok = hasattr(got, "attrs") and got.attrs.get("start") == 777 and got.attrs.get("end") == 888 and got.attrs.get("strand") == "-" and got.attrs.get("attributes", {}).get("note") == ["newer"]
+            ctx.ob("R6", ok, "after the feature stored under a key was replaced by an update, db[key] (%s form, looked up before and after on the same object) returns what is stored now" % form, func=f,
+                   sig="db['e2' as %s] after replace is the stored row" % form if ok else "db['e2' as %s] after replace -> %s..%s %s" % (
+                       form, getattr(got, "attrs", {}).get("start"), getattr(got, "attrs", {}).get("end"), getattr(got, "attrs", {}).get("attributes")))
+    t = scen.call_method(ctx, it, me, "interface.FeatureDB.delete", features="e2", make_backup=False)
+    if scen.returned(ctx, t, "delete('e2')", func=f, rule="R6"):
+        t = scen.call_method(ctx, it, me, "interface.FeatureDB.__getitem__", key="e2")
+        ok = t.result[0] == "raise" and str(t.result[1]).split(".")[-1] == "FeatureNotFoundError"
+        ctx.ob("R6", ok, "after delete the key is absent: FeatureNotFoundError", func=f, sig="db['e2'] after delete raises" if ok else "db['e2'] after delete -> %s" % (t.result[:2],))
+
+
+def r1_histories(ctx):
+    """The key of a line depends on the line (and on the counters), not on which lines came before it: importers evaluated
+    on files where earlier lines lack, and later lines have, the first listed id attribute -- in both orders."""
+    from . import scen
+    f = require_func(ctx, "create._DBCreator._id_handler")
+    mk = lambda name, ft, attrs: scen.feature(name, ft, 1, 10, attrs)
+    lines = [mk("A", "gene", {"Name": ["nameA"]}), mk("B", "gene", {"ID": ["idB"], "Name": ["nameB"]}), mk("C", "mRNA", {"Name": ["nameC"]}),
+             mk("D", "gene", {"ID": ["idD"]}), mk("E", "gene", {"note": ["x"]}), mk("F", "gene", {"Name": ["nameF"], "ID": ["idF"]}), mk("G", "gene", {"note": ["y"]})]
+    want = {"A": "nameA", "B": "idB", "C": "nameC", "D": "idD", "F": "idF"}
+    for spec, label in ((["ID", "Name"], "list"), ({"gene": ["ID", "Name"], "mRNA": ["ID", "Name"]}, "dict of lists")):
+        for order, olabel in ((list(range(len(lines))), "file order"), (list(range(len(lines)))[::-1], "reversed")):
+            ls = [mk(lines[i].name, lines[i].attrs["featuretype"], lines[i].attrs["attributes"]) for i in order]
+            im = scen.Import(ctx, "_GFFDBCreator", id_spec=spec)
+            t = im.call("_populate_from_lines", lines=ls)
+            got = {x.name: x.attrs["id"] for x in ls}
+            auto = sorted(got[n] for n in ("E", "G"))
+            ok = t.result[0] == "return" and all(got[k] == v for k, v in want.items()) and auto == ["gene_1", "gene_2"]
+            ctx.ob("R1", ok, "each line's key is the value of the first listed attribute it has (else '<featuretype>_<n>'), whatever the earlier lines looked like (id_spec as %s, %s)" % (label, olabel),
+                   func=f, sig="keys follow id_spec per line (%s, %s)" % (label, olabel) if ok else "id_spec %s, %s: keys %s" % (label, olabel, got))
 
 
 def check(ctx):
@@ -215,6 +220,7 @@ def check(ctx):
         "INSERTs is parsed; db[key] is evaluated for a string and a Feature key on the absent-row and present-row paths. Default id_spec per "
         "format is decided with C03.R5. Does not decide numbering 'in input order' separately (follows from C01.R2 + R4).")
     r1_r2_r3(ctx)
+    r1_histories(ctx)
     r4(ctx)
     r5(ctx)
     r6(ctx)
